@@ -144,6 +144,8 @@ class C17(core.Prop):
         fr = cx.gen_frame(rng, fams=FAMS, maxrows=10, maxcols=3)
         vflags = [t for t in gen_argv(rng, 'verify', files=()) if t not in UNKNOWN]
         dflags = [t for t in gen_argv(rng, 'detect', files=()) if t not in UNKNOWN]
+        if rng.random() < 0.35 and '--index' not in dflags:
+            dflags = dflags + ['--index']           # (a row-number column in the output file)
         if rng.random() < 0.2 and not any(t in vflags for t in ('--epsilon', '-epsilon')):
             vflags = vflags + ['--epsilon', rng.choice(['2', '1.5', '3', '0.5', '10'])]
         for c in fr['cols']:
@@ -411,6 +413,19 @@ class C17(core.Prop):
                         pd.read_parquet(o1).equals(pd.read_parquet(o2))
                     if not same:
                         fail('detect-differs', 'detection output differs (flags %s)' % case['dflags'], 'detect-differs:output')
+                    # the row numbers written are the records' positions in the input, as the detection object has them
+                    try:
+                        dfo = pd.read_csv(o1) if oext == 'csv' else pd.read_parquet(o1)
+                        det = lv.detected()
+                    except Exception:
+                        dfo = det = None
+                    if dfo is not None and det is not None and 'RowNumber' in dfo.columns and isinstance(det.index, pd.RangeIndex) \
+                            or (dfo is not None and det is not None and 'RowNumber' in dfo.columns and det.index.dtype.kind == 'i'):
+                        want_rows = [int(i_) + 1 for i_ in det.index]
+                        if [int(x_) for x_ in dfo['RowNumber']] != want_rows:
+                            fail('detect-differs', 'RowNumber column of the output file %r, records detected (in memory) %r'
+                                 % (list(dfo['RowNumber'])[:8], want_rows[:8]), 'detect-differs:row-numbers')
+                        self.count('row_numbers_checked')
             # --- failing invocations leave nothing behind
             bad = [
                 ('missing-input', ['discover', 'nosuch.' + ext, 'x1.tdda'], 'x1.tdda'),
@@ -420,12 +435,16 @@ class C17(core.Prop):
                 ('missing-constraints', ['detect', inp, 'nosuch.tdda', 'x3.csv'], 'x3.csv'),
                 ('unknown-flag', ['discover', '--bogus', inp, 'x4.tdda'], 'x4.tdda'),
                 ('unknown-flag', ['detect', inp, 'c.tdda', 'x5.csv', '--bogus'], 'x5.csv'),
+                ('unknown-flag', ['verify', inp, 'c.tdda', '-v'], None),              # (flags of the tool itself, not of a command)
+                ('unknown-flag', ['discover', inp, 'x9.tdda', '--version'], 'x9.tdda'),
+                ('unknown-flag', ['detect', '-v', inp, 'c.tdda', 'x10.csv'], 'x10.csv'),
+                ('unknown-flag', ['verify', '--help-me', inp, 'c.tdda'], None),
                 ('contradictory', ['discover', '-r', '-R', inp, 'x6.tdda'], 'x6.tdda'),
                 ('contradictory', ['detect', inp2 or inp, 'c.tdda', 'x7.csv', '--per-constraint', '--no-per-constraint'], 'x7.csv'),
                 ('contradictory', ['detect', inp2 or inp, 'c.tdda', 'x8.csv', '--output-fields', 'a', '--no-output-fields'], 'x8.csv'),
                 ('contradictory', ['verify', inp, 'c.tdda', '--all', '--fields'], None),
             ]
-            for what, argv, outfile in rng.sample(bad, 5):
+            for what, argv, outfile in rng.sample(bad, 8):
                 rc, out, err, _ = self._cli(argv)
                 if rc == 0:
                     fail('bad-invocation-accepted', '%s: %s exits 0' % (what, argv), 'bad-invocation-accepted:' + what)
